@@ -3,7 +3,7 @@
    general proof. *)
 From Coq Require Import Lia String Ascii.
 From Clikit Require Import Base.Prelude Base.Res Model.Conv Model.Flags Model.Format Model.Parser Model.Spell
-     Proofs.StrLemmas Proofs.FlagsLemmas Proofs.FormatLemmas Proofs.ParserLemmas Proofs.SpellOpts Proofs.SpellArgs.
+     Proofs.StrLemmas Proofs.FlagsLemmas Proofs.FormatLemmas Proofs.ParserLemmas Proofs.SpellOpts Proofs.SpellArgs Proofs.SpellDenote.
 
 Module SpellExamples.
   Definition s (x : string) : str := map N_of_ascii (list_ascii_of_string x).
@@ -177,3 +177,50 @@ Proof. intros Hf Hwf _ _. exact (parse_spells_lemma f d Hf Hwf). Qed.
 Corollary parse_spells_stage2_lemma f d : fmt_ok f = true -> wf_line f d = true -> no_names d = true ->
   forall lenient, parse f lenient (render d) = Ok (denote f d).
 Proof. intros Hf Hwf _. exact (parse_spells_lemma f d Hf Hwf). Qed.
+
+(* ---------- what the spelled assignment reports (read side of Args on denote) ---------- *)
+Lemma wf_line_inv f d : fmt_ok f = true -> wf_line f d = true ->
+  NoDup (map fst (get_arguments_all f)) /\ fits (get_arguments_all f) (values d) = true /\
+  Forall (ev_ok f) (events d).
+Proof.
+  intros Hf Hwf. destruct (fmt_ok_inv f Hf) as (g & A & cns & FF).
+  unfold wf_line in Hwf. rewrite (ff_aug _ _ _ _ FF) in Hwf.
+  apply andb_prop in Hwf as [Hwf _]. apply andb_prop in Hwf as [Hwf _]. apply andb_prop in Hwf as [Hwf Hfit].
+  apply andb_prop in Hwf as [_ Hit].
+  split; [exact (real_nodup f g A cns FF)|]. split; [exact Hfit|]. unfold events. eapply items_events_ok. exact Hit.
+Qed.
+
+Lemma spelled_multi_option_lemma f d n o : fmt_ok f = true -> wf_line f d = true ->
+  get_option f n true = Ok o -> get_option f (o_long o) true = Ok o ->
+  o_multi o = true -> mentions (o_long o) (events d) = true ->
+  args_option f (denote f d) n = Ok (VList (map (fun s => conv_opt o (VStr s)) (texts_of (o_long o) (events d)))).
+Proof.
+  intros Hf Hwf Hg Hgl Hm Hmen. destruct (wf_line_inv f d Hf Hwf) as (_ & _ & Hev).
+  apply denote_option_multi; assumption.
+Qed.
+Lemma spelled_argument_set_lemma f d i a r : fmt_ok f = true -> wf_line f d = true ->
+  nth_error (get_arguments_all f) i = Some (a_name a, a) ->
+  get_argument f r true = Ok a -> has_argument f r true = true ->
+  args_is_argument_set f (denote f d) r = (i <? length (values d)).
+Proof.
+  intros Hf Hwf Hn Hg Hh. destruct (wf_line_inv f d Hf Hwf) as (Hnd & Hfit & _).
+  eapply denote_argument_set; eassumption.
+Qed.
+Lemma spelled_argument_value_lemma f d i a r : fmt_ok f = true -> wf_line f d = true ->
+  nth_error (get_arguments_all f) i = Some (a_name a, a) ->
+  get_argument f r true = Ok a -> has_argument f r true = true ->
+  args_argument f (denote f d) r =
+  Ok (if i <? length (values d)
+      then (if a_multi a then VList (map (conv_arg a) (skipn i (values d))) else conv_arg a (nth i (values d) []))
+      else a_default a).
+Proof.
+  intros Hf Hwf Hn Hg Hh. destruct (wf_line_inv f d Hf Hwf) as (Hnd & Hfit & _).
+  eapply denote_argument_value; eassumption.
+Qed.
+
+(* the abbreviation of DESIGN.md: the line spells the assignment *)
+Definition spells (f : fmt) (asg : args) (line : list str) : Prop :=
+  exists d, wf_line f d = true /\ render d = line /\ denote f d = asg.
+Lemma spells_parse f asg line : fmt_ok f = true -> spells f asg line ->
+  forall lenient, parse f lenient line = Ok asg.
+Proof. intros Hf (d & Hwf & <- & <-). apply parse_spells_lemma; assumption. Qed.
